@@ -9,6 +9,7 @@ use crate::{Bounded, OutOfRangeError};
 
 /// An atmospheric pressure in millibars.
 #[derive(Debug, Clone, Copy, PartialEq, Serialize, Deserialize)]
+#[serde(try_from = "f64")]
 pub struct Pressure(f64);
 
 impl Bounded<f64> for Pressure {
@@ -37,6 +38,7 @@ impl TryFrom<f64> for Pressure {
 
 /// An outside temperature in degrees Celcius.
 #[derive(Debug, Clone, Copy, PartialEq, Serialize, Deserialize)]
+#[serde(try_from = "f64")]
 pub struct Temperature(f64);
 
 impl Bounded<f64> for Temperature {
